@@ -96,6 +96,8 @@ def r1_collector(ctx):
         clause("bloc", okb, whyb)
         b = arm("Literal", guard="is_top")
         clause("top-literal", b is not None and sem.ftext(b).strip("{}") == "*keys=InterpolOrLit::Litv0.get_type", "a top-level literal sets the literal type")
+    if fn is not None:
+        collector_eval(ctx, r, fn)
     inner = [f for f in ast.fns_named(PR, "inner") if f.qual.endswith("Ranges::get_keys_inner::inner")]
     t = flatp(show(inner[0].body)) if inner else ""
     if same(t, "{for_,valueinv{value.get_keys_innerkey_path,keys,false?}Ok}"):
@@ -103,6 +105,79 @@ def r1_collector(ctx):
     else:
         r.viol("R1:Ranges::get_keys_inner", "not every range branch is collected: %s" % t, file=PR)
     return r
+
+
+def collector_eval(ctx, r, fn):
+    """get_keys_inner evaluated (rules/absint.py) on values of every kind, starting from an empty signature and from one that
+    already knows some of the names (another locale was visited first): everything that occurs in the value is reported to the
+    signature - push_var / push_comp / push_count are the observation points"""
+    from rules import absint, fkeval
+    from rules.absint import AEval, C, A, B, UNIT
+    from rules.fkeval import Lit, Var, Comp, Bloc, FkSet, Rng, Plu, Exact, FALLBACK
+    absint.set_program(ctx.ast)
+    vals = [("a variable", Var("var_x")), ("a formatted variable", Var("var_x", "Number")), ("a component around a variable", Comp("comp_b", Var("var_name"))),
+            ("the same component twice, a variable in the second", Bloc(Comp("comp_b", Lit("a")), Lit(" and "), Comp("comp_b", Var("var_x")))),
+            ("nested components", Comp("comp_b", Comp("comp_i", Comp("comp_b", Var("var_y"))))),
+            ("a range", Rng("var_count", "I32", [(Exact(0), Var("var_z")), (FALLBACK, Comp("comp_i", Var("var_count")))])),
+            ("a plural", Plu("var_count", "Cardinal", [("One", Var("var_o")), ("Few", Comp("comp_b", Var("var_f")))], Var("var_other"))),
+            ("a resolved reference", FkSet(Bloc(Var("var_q"), Comp("comp_b", Var("var_r"))))), ("a bloc in a bloc", Bloc(Lit("a"), Bloc(Var("var_x"), Bloc(Comp("comp_b", Var("var_y"))))))]
+
+    def occ(v, out):
+        k = v[1]
+        f = absint.fields_of(v) if v[0] == "ctor" and len(v) > 3 else {}
+        if k == "Variable":
+            out.add(("var", absint.fields_of(f["key"])["name"][1]))
+        elif k == "Component":
+            out.add(("comp", absint.fields_of(f["key"])["name"][1]))
+            occ(f["inner"], out)
+        elif k == "Bloc":
+            for x in v[2][0][1]:
+                occ(x, out)
+        elif k == "ForeignKey":
+            occ(v[2][0][2][0], out)
+        elif k == "Ranges":
+            rf = absint.fields_of(v[2][0])
+            out.add(("count", absint.fields_of(rf["count_key"])["name"][1]))
+            for br in rf["inner"][2][0][1]:
+                occ(br[1][1], out)
+        elif k == "Plurals":
+            pf = absint.fields_of(v[2][0])
+            out.add(("count", absint.fields_of(pf["count_key"])["name"][1]))
+            for fm in pf["forms"][1]:
+                occ(fm[1][1], out)
+            occ(pf["other"], out)
+    n = 0
+    bad = None
+    for known in (set(), {("comp", "comp_b"), ("var", "var_x"), ("count", "var_count")}):
+        for label, v in vals:
+            seen = set(known)
+            log = set()
+
+            def name(kv):
+                return absint.fields_of(kv)["name"][1]
+
+            def push(kind):
+                def f(rv, a):
+                    item = (kind, name(a[0] if kind != "count" else a[2]))
+                    new = item not in seen
+                    seen.add(item)
+                    log.add(item)
+                    return B(new) if kind == "comp" else (UNIT if kind == "var" else C("Ok", UNIT))
+                return f
+            ev = AEval(funcs={}, builtins={"get_interpol_keys_mut": lambda rv, a: A("signature"), "push_var": push("var"), "push_comp": push("comp"), "push_count": push("count"),
+                                           "get_type": lambda rv, a: A("type"), "as_inner": lambda rv, a: rv[2][0] if rv[0] == "ctor" and rv[1] == "Set" else rv})
+            got = ev.run_fn(fn, [v, A("key_path"), A("keys"), B(False)])
+            if isinstance(got, str):
+                raise absint.Unknown("%s (get_keys_inner on %s)" % (got, label))
+            n += 1
+            want = set()
+            occ(v, want)
+            if (got != C("Ok", UNIT) or log != want) and bad is None:
+                bad = "%s%s: the signature is told about %s, the value contains %s (result %s)" % (label, " when the signature already has comp_b, var_x and the count" if known else "", sorted(log), sorted(want), absint.fmt(got)[:60])
+    if bad:
+        r.viol("R1:get_keys_inner#everything-that-occurs", bad, file=fn.file, line=fn.line)
+    else:
+        r.inst("get_keys_inner (evaluated)", "%d evaluations (9 values of every kind x signature empty / already knowing some names): every variable, component and count that occurs is reported" % n)
 
 
 def r2_union(ctx, prog):
@@ -468,7 +543,14 @@ def run(ctx):
     k0, _ok, _why = c06.r0_substitution(ctx)
     rules.append(borrow(k0, "C08.R6", "arguments are collected from the value after foreign-key substitution",
                         "`the union, over all locales, of those occurring in that key's value after foreign-key substitution`: a variable that "
-                        "a `$t(.., {args})` supplied but substitution left in place is still demanded from the caller", only=r"populate", floor=1))
+                        "a `$t(.., {args})` supplied but substitution left in place is still demanded from the caller; a component written in a string argument "
+                        "that is not parsed as a translation string is missing from the signature", only=r"populate|parse_foreign_key_args", floor=2))
+    # `the union ... of those occurring in that key's value`: a plural form the locale's rules never select still belongs to the value -
+    # the diagnostics only warn, they do not edit the plural (check_forms evaluated, shared with C05.R3)
+    from rules import c05
+    rules.append(borrow(c05.r3_diagnostics(ctx, ctx.mir("main")), "C08.R7", "an unused plural form stays part of the value (and of the signature)",
+                        "`exactly the union, over all locales, of those occurring in that key's value`: the unused-form check warns; if it also removed the form, "
+                        "the variables only that form uses would vanish from the signature", only=r"forms-kept|check_forms", floor=1))
     if ctx.tier == "thorough":
         from rules import witness
         rules.append(witness.rule(ctx))
